@@ -18,11 +18,25 @@ try:
 except translate.TranslateError as e:
     print("setup: translator error (checks will report it):", e)
 exes = re.findall(r'^name = "(drv_\w+)"', open(os.path.join(C.LEAN_SRC, "lakefile.toml")).read(), re.M)
-rc, out, dt = C.lake_build(["ColoVerif"] + exes)
-print(out[-3000:])
-print("setup: lake build rc=%d in %.0fs" % (rc, dt))
+props = sorted(os.path.basename(p)[:-3] for p in glob.glob(os.path.join(C.VERIF, "tools", "props", "C*.py")))
+# one lake invocation for everything first (fast path); a failing module must not stop the others, so
+# fall back to per-property builds and report what failed (the property's own check will report it too)
+targets = ["ColoVerif.Properties." + p for p in props] + [e for e in exes if e[4:] in props]
+rc, out, dt = C.lake_build(targets)
+print("setup: lake build of %d targets rc=%d in %.0fs" % (len(targets), rc, dt))
+failed = []
+if rc != 0:
+    print(out[-2000:])
+    for t in targets:
+        rc1, out1, dt1 = C.lake_build([t])
+        if rc1 != 0:
+            failed.append(t)
+            print("setup: target %s FAILED:\n%s" % (t, out1[-1500:]))
 for v in ("san",):
-    lib, dt = C.build_lib(v)
-    print("setup: %s (%.0fs)" % (lib, dt))
-print("setup done in %.0fs" % (time.time() - t0))
-sys.exit(0 if rc == 0 else 1)
+    try:
+        lib, dt = C.build_lib(v)
+        print("setup: %s (%.0fs)" % (lib, dt))
+    except RuntimeError as e:
+        print("setup: library build failed:", str(e)[-2000:])
+print("setup done in %.0fs; failed targets: %s" % (time.time() - t0, failed or "none"))
+sys.exit(0)
